@@ -278,3 +278,28 @@ def check_bench(gate, nin):
                         expected=dict(O=exp, Q=prev), bench=text)
         prev = exp
     return dict(failed=False, observed='ok', expected='ok')
+
+
+def check_wide_vector(n=12, merge=True):
+    """bit-indexed vector ports wider than 10 bits (index order is numeric, not lexicographic)"""
+    import pyrtl
+    ins = ' '.join('a[%d]' % i for i in range(n))
+    outs = ' '.join('o[%d]' % i for i in range(n))
+    body = ''.join('.names a[%d] o[%d]\n1 1\n' % (i, (i + 1) % n) for i in range(n))
+    blif = ".model top\n.inputs %s\n.outputs %s\n%s.end\n" % (ins, outs, body)
+    try:
+        _import_blif(blif, merge)
+    except Exception as e:
+        return dict(failed=True, observed='%s: %s' % (type(e).__name__, str(e)[:100]), expected='imports')
+    sim = pyrtl.Simulation()
+    for v in [1 << i for i in range(n)] + [0, (1 << n) - 1, 0x2, 0xabc % (1 << n)]:
+        if merge:
+            sim.step({'a': v})
+            got = sim.inspect('o')
+        else:
+            sim.step({'a[%d]' % i: (v >> i) & 1 for i in range(n)})
+            got = sum(sim.inspect('o[%d]' % i) << i for i in range(n))
+        exp = ((v << 1) | (v >> (n - 1))) & ((1 << n) - 1)
+        if got != exp:
+            return dict(failed=True, observed=dict(a=hex(v), o=hex(got)), expected=hex(exp))
+    return dict(failed=False, observed='ok', expected='ok')
